@@ -1,4 +1,5 @@
 import ComposeVerif.Lemmas.C01Pipeline
+import ComposeVerif.Model.C01Pipeline
 import ComposeVerif.Props.C01
 import ComposeVerif.Props.C04
 import ComposeVerif.Props.C11
@@ -105,3 +106,144 @@ theorem pipeline_stages_never_panic :
    fun fs fuel files inc s => Inc.loadModel_ne_panic fs fuel files inc s⟩
 
 end CV.C01.Pipeline
+
+/-!
+# the stages composed (round 5): `Model/C01Pipeline.lean`
+
+`Pipe.loadModel` chains the stage models in the order and under the option tests of `processRawYaml` /
+`loadYamlModel` / `load`.  The conjunction above becomes a statement about ONE function, for every option set, every
+parameter (tables, environment, working directory, schema verdict), every list of documents:
+a panic outcome of the composition can only be one of the three sites of `validation.Validate` — and with
+`SkipValidation` (the option under which every panic of the earlier rounds was found) there is none at all.
+`ApplyExtends` / processors / `ApplyInclude` enter as a parameter with the hypothesis that they do not panic (their own
+theorems: `extends_never_panics`, `Inc.loadModel_ne_panic`, `alias_resolution_total`).
+-/
+namespace CV.C01.Pipe
+open CV
+
+/-- a panic outcome, if any, is at one of the sites `S` -/
+def PS {α : Type} (S : List String) (o : Out α) : Prop := ∀ s, o = .panic s → s ∈ S
+
+theorem ps_ok {α : Type} (S : List String) (a : α) : PS S (Out.ok a) := by intro s h; cases h
+theorem ps_err {α : Type} (S : List String) (e : String) : PS S (Out.err e : Out α) := by intro s h; cases h
+theorem ps_nil_mono {α : Type} {S : List String} {o : Out α} (h : PS [] o) : PS S o := fun s e => absurd (h s e) (by simp)
+theorem ps_bind {α β : Type} {S : List String} {o : Out α} {f : α → Out β} (ho : PS S o) (hf : ∀ a, PS S (f a)) :
+    PS S (o.bind f) := by
+  intro s h
+  cases o with
+  | ok a => exact hf a s h
+  | err e => cases h
+  | panic t => simp only [Out.bind] at h; cases h; exact ho _ rfl
+
+theorem ps_ofWalker {α : Type} (st : String) (x : C01.Out α) (h : ∀ s, x ≠ .panic s) : PS [] (ofWalker st x) := by
+  intro s e; cases x <;> simp only [ofWalker] at e <;> cases e; exact absurd rfl (h _)
+theorem ps_ofInterp {α : Type} (x : Interp.Out α) (h : ∀ s, x ≠ .panic s) : PS [] (ofInterp x) := by
+  intro s e; cases x <;> simp only [ofInterp] at e <;> cases e; exact absurd rfl (h _)
+theorem ps_ofMerge {α : Type} (st : String) (x : Merge.Out α) (h : ∀ s, x ≠ .panic s) : PS [] (ofMerge st x) := by
+  intro s e; cases x <;> simp only [ofMerge] at e <;> cases e; exact absurd rfl (h _)
+theorem ps_ofShort {α : Type} (x : Short.Out α) (h : ∀ s, x ≠ .panic s) : PS [] (ofShort x) := by
+  intro s e; cases x <;> simp only [ofShort] at e <;> cases e; exact absurd rfl (h _)
+theorem ps_ofC11 {α : Type} (st : String) (x : C11.Out α) (h : ∀ s, x ≠ .panic s) : PS [] (ofC11 st x) := by
+  intro s e; cases x <;> simp only [ofC11] at e <;> cases e; exact absurd rfl (h _)
+theorem ps_ofPaths {α : Type} (x : Paths.Out α) (h : ∀ s, x ≠ .panic s) : PS [] (ofPaths x) := by
+  intro s e; cases x <;> simp only [ofPaths] at e <;> cases e; exact absurd rfl (h _)
+
+def validateSites : List String :=
+  ["validation.init.checkFileObject", "validation.checkPath", "validation.checkDeviceRequest"]
+
+theorem ps_ofValidate (v : Val) : PS validateSites (ofValidate v (Validate.validate v)) := by
+  intro s e
+  cases hv : Validate.validate v with
+  | ok => rw [hv] at e; cases e
+  | err c => rw [hv] at e; cases e
+  | panic t => rw [hv] at e; simp only [ofValidate] at e; cases e; exact Pipeline.validate_only_panic_sites v _ hv
+
+/-- **one document**: `processRawYaml` — convert, interpolate, fixEmpty, extends / include, merge, unicity, schema,
+canonical, omitEmpty, unicity — has no panic outcome, for every option set, parameter set, accumulated `dict` and raw
+document, provided the extends / include stage has none -/
+theorem processRawYaml_never_panics (o : Opts) (P : Params) (hExt : ∀ v s, P.extInc v ≠ .panic s)
+    (dict : Val) (raw : GoVal) (s : String) : processRawYaml o P dict raw ≠ .panic s := by
+  have key : PS [] (processRawYaml o P dict raw) := by
+    unfold processRawYaml
+    refine ps_bind (ps_ofWalker _ _ (convertTop_total raw)) fun kvs0 => ?_
+    refine ps_bind (by split; exact ps_ok _ _; exact ps_ofInterp _ (Pipeline.interpolate_never_panics _ _)) fun cfg1 => ?_
+    refine ps_bind (fun t e => absurd e (hExt _ t)) fun cfg2 => ?_
+    refine ps_bind (ps_ofMerge _ _ (C04.merge_never_panics _ _)) fun d1 => ?_
+    refine ps_bind (ps_ofMerge _ _ (C04.enforceTop_never_panics _)) fun d2 => ?_
+    refine ps_bind (by split; exact ps_ok _ _; split; exact ps_ok _ _; exact ps_err _ _) fun d3 => ?_
+    refine ps_bind (ps_ofShort _ (Pipeline.canonical_never_panics _ _)) fun d4 => ?_
+    refine ps_bind (ps_ofWalker _ _ (omitEmpty_total _ _)) fun d5 => ?_
+    exact ps_ofMerge _ _ (C04.enforceTop_never_panics _)
+  exact fun e => absurd (key s e) (by simp)
+
+/-- **all documents of all files** -/
+theorem loadFiles_never_panics (o : Opts) (P : Params) (hExt : ∀ v s, P.extInc v ≠ .panic s) :
+    ∀ (raws : List GoVal) (dict : Val) (s : String), loadFiles o P dict raws ≠ .panic s
+  | [], dict, s => by simp [loadFiles]
+  | raw :: rest, dict, s => by
+    unfold loadFiles
+    intro e
+    cases h : processRawYaml o P dict raw with
+    | ok d => rw [h] at e; exact loadFiles_never_panics o P hExt rest d s e
+    | err x => rw [h] at e; cases e
+    | panic t => exact processRawYaml_never_panics o P hExt dict raw t h
+
+/-- **the whole model load, full statement**: for every option set, parameter set and list of documents the composition
+answers ok, err, or a panic at one of the three assertion sites of `validation.Validate` (each `schema`-guarded in the
+site review) -/
+theorem loadModel_panics_only_at_validate_sites (o : Opts) (P : Params) (hExt : ∀ v s, P.extInc v ≠ .panic s)
+    (raws : List GoVal) (s : String) (h : loadModel o P raws = .panic s) : s ∈ validateSites := by
+  have key : PS validateSites (loadModel o P raws) := by
+    unfold loadModel
+    refine ps_bind (ps_nil_mono fun t e => absurd e (loadFiles_never_panics o P hExt raws _ t)) fun d0 => ?_
+    refine ps_bind (by split; exact ps_ok _ _; exact ps_nil_mono (ps_ofC11 _ _ (Pipeline.setDefaultValues_never_panics _ _))) fun d1 => ?_
+    refine ps_bind (by split; exact ps_ok _ _; exact ps_ofValidate d1) fun d2 => ?_
+    refine ps_bind (by split; exact ps_nil_mono (ps_ofPaths _ (Paths.resolve_never_panics _ _)); exact ps_ok _ _) fun d3 => ?_
+    simp only
+    split
+    · exact ps_err _ _
+    · split
+      · exact ps_ok _ _
+      · exact ps_bind (ps_nil_mono (ps_ofC11 _ _ (C11.normalize_never_panics _ _ _))) fun kvs => ps_ok _ _
+  exact key s h
+
+/-- **with `SkipValidation`** (schema and `validation.Validate` both off — every tree reaches every other stage
+unchecked): the composition never panics -/
+theorem loadModel_never_panics_skipValidation (o : Opts) (P : Params) (hExt : ∀ v s, P.extInc v ≠ .panic s)
+    (hskip : o.skipValidation = true) (raws : List GoVal) (s : String) : loadModel o P raws ≠ .panic s := by
+  have key : PS [] (loadModel o P raws) := by
+    unfold loadModel
+    refine ps_bind (fun t e => absurd e (loadFiles_never_panics o P hExt raws _ t)) fun d0 => ?_
+    refine ps_bind (by split; exact ps_ok _ _; exact ps_ofC11 _ _ (Pipeline.setDefaultValues_never_panics _ _)) fun d1 => ?_
+    refine ps_bind (by simp only [hskip, if_true]; exact ps_ok _ _) fun d2 => ?_
+    refine ps_bind (by split; exact ps_ofPaths _ (Paths.resolve_never_panics _ _); exact ps_ok _ _) fun d3 => ?_
+    simp only
+    split
+    · exact ps_err _ _
+    · split
+      · exact ps_ok _ _
+      · exact ps_bind (ps_ofC11 _ _ (C11.normalize_never_panics _ _ _)) fun kvs => ps_ok _ _
+  exact fun e => absurd (key s e) (by simp)
+
+/-! non-vacuity: the hypothesis on the parameter is satisfiable (the identity stage), and the exception of the full
+statement is real IN THE COMPOSITION when the schema verdict is not tied to the tree: with a `schemaOK` that accepts
+everything, `gpus: [1]` travels through convert, merge, unicity, canonical, omitEmpty, unicity and reaches
+`checkDeviceRequest`'s `.(map[string]any)` (`configs: {a: 1}` does not get that far: `transformMaybeExternal` rejects it).  (What rules it out in the loader is gojsonschema — `schema_guards_hold`,
+`kindsAt_sound` — plus the fact, not proved, that the stages in between keep the kind at the three patterns.) -/
+example : ∀ (v : Val) (s : String), (fun v => Out.ok v : Val → Out Val) v ≠ .panic s := by intro v s h; cases h
+
+example (c : Interp.Cfg) (pc : Paths.Cfg) :
+    loadModel ⟨true, false, true, true, false⟩
+      { interp := c, omitPats := [], defaults := [], paths := pc, clean := id, env := [],
+        schemaOK := fun _ => true, extInc := fun v => .ok v, resolveEnv := id }
+      [.map [("services", .map [("s", .map [("gpus", .seq [.int 1])])])]]
+    = .panic "validation.checkDeviceRequest" := by rfl
+
+example (c : Interp.Cfg) (pc : Paths.Cfg) :
+    loadModel ⟨true, true, true, true, false⟩
+      { interp := c, omitPats := [], defaults := [], paths := pc, clean := id, env := [],
+        schemaOK := fun _ => true, extInc := fun v => .ok v, resolveEnv := id }
+      [.map [("configs", .map [("a", .map [("file", .str "f")])])], .map [("services", .map [("s", .map [("image", .str "i")])])]]
+    = .ok (.map [("configs", .map [("a", .map [("file", .str "f")])]), ("services", .map [("s", .map [("image", .str "i")])])]) := by rfl
+
+end CV.C01.Pipe
